@@ -7,9 +7,10 @@ Design level : specs/ConstExpr.tla: CEval = typed C evaluation (type of integer 
                MC_ConstExpr (TLC, int = 8 bits, long = 10 bits): every operator applied to every pair of
                leaves around all type boundaries (dec/hex, u/l suffixes, plain and escaped characters)
                and deeper comb-shaped trees over a small leaf set: wherever C defines the value the two
-               agree OR the first node where they part belongs to a recorded class (char-escape,
-               unsigned-wrap, negative-to-unsigned).  The unrestricted agreement must FAIL (the classes
-               are real) and two broken variants of _c_div / % must be rejected.
+               agree OR the first node where they part belongs to a recorded class (unsigned-wrap,
+               negative-to-unsigned).  The unrestricted agreement must FAIL (the classes are real) and
+               three broken variants (_c_div, %, the pre-fix ord(s[-2]) character constants) must be
+               rejected.
 Binding      : (spec -> code) the trees TLC enumerated, with their boundary values mapped to 32/64 bits;
                (code -> spec) random trees of depth <= 4.  Each is placed in a context (array length,
                enumerator value, bit-field width, #define, static const); gcc prints type and value of
@@ -69,17 +70,18 @@ def tuples(out, head):
 
 def design_level(ctx):
     quick = ctx.quick
-    main = [("MC_ConstExpr(every operator x every pair of %d boundary leaves, int=8 long=10 bits)" % (36 if quick else 78),
+    main = [("MC_ConstExpr(every operator x every pair of %d boundary leaves, int=8 long=10 bits)" % (37 if quick else 79),
              cfg("mid" if quick else "full", 1), 6),
             ("MC_ConstExpr(comb trees of depth <= %d over 8 leaves)" % (1 if quick else 2),
              cfg("small", 1 if quick else 2, 0), 4 if quick else 8)]
     sanity = [("sanity:exact-agreement-must-fail", cfg("small", 1, inv="AgreeExact")),
               ("sanity:floordiv", cfg("small", 2, variant="floordiv")),
-              ("sanity:pymod", cfg("small", 2, variant="pymod"))]
+              ("sanity:pymod", cfg("small", 2, variant="pymod")),
+              ("sanity:ordchr(pre-4d735ce character constants)", cfg("small", 1, variant="ordchr"))]
 
     def go(a):
         return core.tlc("MC_ConstExpr", cfg_text=a[1], workers=a[2] if len(a) > 2 else 2, env=XSS, timeout=3000)
-    with concurrent.futures.ThreadPoolExecutor(max_workers=5) as ex:
+    with concurrent.futures.ThreadPoolExecutor(max_workers=6) as ex:
         fm = [ex.submit(go, a) for a in main]
         fs = [ex.submit(go, a) for a in sanity]
         outs = []
@@ -263,14 +265,14 @@ META = {
     "text": "TLC compares the transcribed untyped evaluation of Parser._parse_constant/_c_div with a typed C evaluation "
             "(constant typing, character constants, usual arithmetic conversions, modular unsigned arithmetic, "
             "undefinedness) for every operator applied to every pair of boundary leaves and for deeper comb-shaped "
-            "trees (int = 8, long = 10 bits): they agree wherever C defines the value except in three recorded classes, "
-            "which TLC shows to be real, and two broken variants are rejected. The enumerated trees mapped to 32/64 bits "
+            "trees (int = 8, long = 10 bits): they agree wherever C defines the value except in two recorded classes, "
+            "which TLC shows to be real, and three broken variants are rejected. The enumerated trees mapped to 32/64 bits "
             "and random trees of depth <= 4 are placed in array-length, enumerator, bit-field-width, #define and static "
             "const contexts; gcc prints type and value of every sub-expression, cffi reports the value in-line and through "
             "out-of-line ABI and API modules, and TLC revalidates every node against the typed evaluation with "
             "model-checked limb arithmetic (gcc first), keying each cffi mismatch by the class of the culprit node.",
-    "note": "Genuine defects are expected and listed in known_findings.d/C09.json (escaped character constants, unsigned "
-            "wrap-around, negative operands converted to unsigned); any mismatch outside these classes is a violation. "
+    "note": "Genuine defects are expected and listed in known_findings.d/C09.json (unsigned wrap-around, negative operands "
+            "converted to unsigned; escaped character constants were fixed in 4d735ce); any mismatch outside these classes is a violation. "
             "Trusted: gcc (validated per node), TLC.",
     "technique": "TLA+ model vs ideal equivalence modulo recorded classes (TLC) + replay of enumerated trees at true widths "
                  "+ per-node TLC validation of gcc and cffi on random trees",
